@@ -23,6 +23,7 @@ func runC17(c *Ctx) {
 		c.checkNormaliserSums("normaliser-sum", "distance/protein")
 	}
 	c.checkLikelihoodSumComplete("likelihood-sum-complete")
+	c.checkEigenTerms("eigen-terms")
 	c.checkDenseSymmetry()
 	c.checkDistRange()
 	c.checkBranchClamp()
